@@ -31,7 +31,7 @@ var (
 	repo     = flag.String("repo", "/repo", "gotree working tree")
 	rtDir    = flag.String("rt", "/verif/mc/rt", "runtime sources")
 	outDir   = flag.String("out", "", "output directory")
-	yieldAll = flag.String("yieldall", "hashmap", "comma separated package names: yield before every statement")
+	yieldAll = flag.String("yieldall", "hashmap,tree,support", "comma separated package names: yield before every statement")
 	verbose  = flag.Bool("v", false, "verbose")
 )
 
